@@ -88,12 +88,34 @@ def _values(rng, t, n):
 
 
 def cases(rng, tier):
-    for gen in (int_cases, ext_cases, float_cases, smallest_cases, column_cases, interval32_cases, decimals_cases):
+    for gen in (int_cases, ext_cases, float_cases, smallest_cases, column_cases, interval32_cases, decimals_cases, reuse_cases):
         for c in gen(rng, tier):
             rt = c.get("rt")
             if rt and rt.get("enc") in ("rle", "delta", "pack", "bytes", "compress_int", "compress_float") and rng.random() < 0.35:
                 rt["be"] = True          # same values, big-endian byte order (oracle only; the model has no byte order)
             yield c
+
+
+def reuse_cases(rng, tier):
+    """oracle-only: (i) an encoding object that fixed its src_size on one array is reused on an array of another length;
+    (ii) uint64 input arrays (TypeCode.from_dtype maps them to UINT32)."""
+    for _ in range(60 if tier == "quick" else 1200):
+        t = rng.choice(["i8", "i16", "i32", "u8", "u16", "u32"])
+        first = _values(rng, t, rng.choice([3, 5, 8]))
+        second = _values(rng, t, rng.choice([0, 1, 2, 4, 9, 12]))
+        yield {"kind": "reuse", "rt": {"enc": "reuse", "which": rng.choice(["rle", "pack1", "pack2"]), "dtype": t, "first": first, "data": second}}
+    for _ in range(60 if tier == "quick" else 1200):
+        n = rng.choice([1, 2, 3, 6])
+        xs = [rng.choice([0, 1, 2 ** 31 - 1, 2 ** 31, 2 ** 31 + 5, 2 ** 32 - 1, rng.randint(0, 2 ** 32 - 1), rng.randint(0, 300)]) for _ in range(n)]
+        if rng.random() < 0.15:
+            xs[rng.randrange(n)] = rng.choice([2 ** 32, 2 ** 40, 2 ** 63])      # beyond UINT32: must be rejected or kept
+        elif rng.random() < 0.4:
+            # cumsum-like: non-decreasing with small steps, inside [2^31, 2^32)
+            start = rng.randint(2 ** 31 - 3, 2 ** 32 - 2000)
+            xs = [start]
+            for _ in range(n - 1):
+                xs.append(xs[-1] + rng.randint(0, 300))
+        yield {"kind": "u64", "rt": {"enc": "u64", "chain": rng.choice(["bytes", "delta", "rle", "delta+rle", "compress", "data"]), "data": xs}}
 
 
 def interval32_cases(rng, tier):
@@ -625,6 +647,60 @@ def oracle(case):
             key = "C05/ByteArrayEncoding/float64-to-float32-overflow" if (math.isfinite(a) and not math.isfinite(b)) else "C05/bytes_float/roundtrip"
             v.append((key, f"ByteArray(FLOAT32) {a!r} -> {b!r}"))
             break
+    elif kind == "reuse":
+        arr1 = np.array(rt["first"], dtype=NP[rt["dtype"]])
+        arr2 = np.array(data, dtype=NP[rt["dtype"]])
+        try:
+            if rt["which"] == "rle":
+                enc = E.RunLengthEncoding()
+            else:
+                enc = E.IntegerPackingEncoding(byte_count=int(rt["which"][-1]))
+                arr1, arr2 = arr1.astype(np.int32), arr2.astype(np.int32)
+            enc.encode(arr1)                      # fixes src_size (and is_unsigned) on the first array
+            back = enc.decode(enc.encode(arr2))   # reuse: must reject or round-trip
+        except Exception:
+            return []
+        if len(back) != len(data) or any(int(a) != int(b) for a, b in zip(back, data)):
+            v.append((f"C05/{rt['which'][:4].rstrip('12')}/reused-encoding-roundtrip",
+                      f"{rt['which']} encoding first used on {rt['first']} then on {data}: decodes to {[int(x) for x in back][:14]}"))
+    elif kind == "u64":
+        arr = np.array(data, dtype=np.uint64)
+        import warnings
+        warnings.simplefilter("ignore", RuntimeWarning)
+        try:
+            ch = rt["chain"]
+            if ch == "compress":
+                c = _compress_fn(bcif.BinaryCIFData(arr))
+                back = bcif.BinaryCIFData.deserialize(c.serialize()).array
+            elif ch == "data":
+                back = bcif.BinaryCIFData.deserialize(bcif.BinaryCIFData(arr).serialize()).array
+            else:
+                encs = {"bytes": [E.ByteArrayEncoding()], "delta": [E.DeltaEncoding(), E.ByteArrayEncoding()],
+                        "rle": [E.RunLengthEncoding(), E.ByteArrayEncoding()],
+                        "delta+rle": [E.DeltaEncoding(), E.RunLengthEncoding(), E.ByteArrayEncoding()]}[ch]
+                d = bcif.BinaryCIFData(arr, encs)
+                back = bcif.BinaryCIFData.deserialize(d.serialize()).array
+        except Exception as e:  # noqa: BLE001
+            # uint64 is mapped to UINT32 by the format: a rejection is legitimate only for values UINT32 cannot hold, for the
+            # empty array, or where the unchanged Delta path is already known to be broken for this array (known-finding class)
+            shifted = [x - data[0] for x in data] if data else []
+            fpath = any(x < 0 for x in shifted) or any(abs(b - a) > 2 ** 31 - 1 for a, b in zip([0] + shifted, shifted))
+            if not data or any(x > 2 ** 32 - 1 for x in data) or ("delta" in rt["chain"] and fpath):
+                return []
+            return [(f"C05/u64/{rt['chain']}-rejected-representable",
+                     f"uint64 {data} (all values fit UINT32) through {rt['chain']} raised {type(e).__name__}: {str(e)[:80]}")]
+        if len(back) != len(data) or any(int(a) != int(b) for a, b in zip(back, data)):
+            big = any(x > 2 ** 32 - 1 for x in data)
+            shifted = [x - data[0] for x in data]
+            float_path = any(x < 0 for x in shifted) or any(abs(b - a) > 2 ** 31 - 1 for a, b in zip([0] + shifted, shifted)) \
+                or any(x > 2 ** 32 - 1 for x in data)
+            if "delta" in ch and float_path:
+                # one call site, one cause: np.diff(uint64 data, prepend=0) is computed in float64, astype(int32) of an
+                # out-of-range float is INT_MIN instead of the two's-complement wrap the uint32/int64 paths rely on
+                key = "C05/DeltaEncoding/uint64-array-promoted-to-float64"
+            else:
+                key = f"C05/u64/{ch}-roundtrip"
+            v.append((key, f"uint64 {data} through {ch}: decodes to {[int(x) for x in back][:12]}"))
     elif kind == "interval_float":
         dt = np.float32 if rt["ft"] == "f4" else np.float64
         mn, mx, n = rt["min"], rt["max"], rt["n"]
@@ -761,7 +837,7 @@ def _file_roundtrip(rt):
 
 
 def nontrivial(case, impl_out):
-    if case["kind"] in ("file", "column", "interval32", "decimals"):
+    if case["kind"] in ("file", "column", "interval32", "decimals", "reuse", "u64"):
         return True
     data = (case.get("rt") or {}).get("data")
     if data is not None and len(set(data)) >= 2:
